@@ -1145,8 +1145,228 @@ pub fn fam_process(r: &mut Rng) -> Vec<Prog> {
     }]
 }
 
+/// Long `,`-sequences: a step that can yield nil (a refutable match on the parameter, a call of a
+/// partial function) somewhere before never-nil steps (irrefutable bindings, literals, total calls)
+/// and a nil-free last chain. The sequence short-circuits to nil at run time, so its type must keep
+/// `[]` however many never-nil steps follow the nil-able one. Used as a function body, as a nested
+/// block, and as the condition of a last `cond => body` branch; the result is also used at its
+/// nil-free type (which the compiler must reject). No bare binder is the nil-able step (F25).
+pub fn fam_sequence(r: &mut Rng) -> Vec<Prog> {
+    let mut g = G::new(r);
+    let payload = if g.r.chance(2, 3) { GTy::Int } else { GTy::Bin };
+    let other = match g.r.below(3) {
+        0 => tag("B"),
+        1 => tup(Some("B"), vec![(None, GTy::Bin)]),
+        _ => if payload == GTy::Int { GTy::Bin } else { GTy::Int },
+    };
+    let ty = GTy::Union(vec![tup(Some("A"), vec![(None, payload.clone())]), other.clone()]);
+    // the nil-able step binds `a : payload`
+    let nilable: Node = match g.r.below(4) {
+        0 => {
+            g.feats.insert("sequence:refutable-match".into());
+            t("=A[a]")
+        }
+        1 => {
+            g.feats.insert("sequence:refutable-typed-bind".into());
+            t(&format!("=(A[{}])w, a = w.0", payload.src()))
+        }
+        2 => {
+            g.feats.insert("sequence:partial-call".into());
+            t(&format!("$ pick =({})a", payload.src()))
+        }
+        _ => {
+            g.feats.insert("sequence:refutable-match-on-variable".into());
+            t("v = $, v =A[a]")
+        }
+    };
+    let never_nil = |g: &mut G, k: usize| -> Node {
+        // gate (finding N17): a binding of a tuple literal (`y = Z[1]`) as the last chain of a
+        // branch CONDITION after a type match on a partial call's result loses the nil
+        match g.r.below(3) {
+            0 => t(&format!("y{k} = {}", 1 + k)),
+            1 => t(&format!("{}", 7 + k)),
+            _ => t(&format!("y{k} = {} inc", k)),
+        }
+    };
+    let n_before = g.r.usize(2);
+    let n_after = 1 + g.r.usize(3);
+    let mut steps: Vec<Node> = vec![];
+    for k in 0..n_before {
+        steps.push(never_nil(&mut g, 10 + k));
+    }
+    steps.push(nilable);
+    for k in 0..n_after {
+        steps.push(never_nil(&mut g, k));
+    }
+    let last_is_int = payload == GTy::Int;
+    let last: Node = match g.r.below(3) {
+        0 if last_is_int => t("[a, 1] __integer_add__"),
+        0 => t("a __binary_length__"),
+        1 => t("R[a]"),
+        _ => t("5"),
+    };
+    steps.push(last);
+    let seq = Node::Steps(steps);
+    let form = g.r.below(4);
+    let body: Node = match form {
+        0 => {
+            g.feats.insert("sequence:function-body".into());
+            cat(vec![t("{ "), seq, t(" }")])
+        }
+        1 => {
+            g.feats.insert("sequence:last-branch-condition".into());
+            cat(vec![t("{ "), seq, t(" => K }")])
+        }
+        2 => {
+            g.feats.insert("sequence:nested-block".into());
+            cat(vec![t("{ $ { "), seq, t(" } }")])
+        }
+        _ => {
+            g.feats.insert("sequence:second-branch-condition".into());
+            cat(vec![t("{ | =Q => Q0 | "), seq, t(" => K }")])
+        }
+    };
+    let defs = vec![
+        ("inc".to_string(), t("#'int { [$, 1] __integer_add__ }")),
+        ("pick".to_string(), t(&format!("#{} {{ =A[p] => p }}", ty.param_src()))),
+        ("f".to_string(), cat(vec![t(&format!("#{} ", ty.param_src())), body])),
+        ("w".to_string(), t(&format!("#{} {{ $ }}", ty.param_src()))),
+    ];
+    let vals = g.values(&ty, 1);
+    let args = pick_args(g.r, vals, 5);
+    // how the result is used: plainly (inhabitation), or at its nil-free type (must be rejected)
+    let main = match g.r.below(4) {
+        0 => "{ARG} f",
+        1 => "{ARG} w f",
+        2 => "[{ARG} w f, 1] __integer_add__",
+        _ => "{ARG} w f { =[] => N | =x => S[x] }",
+    };
+    vec![Prog {
+        family: "sequence",
+        features: g.feats.clone(),
+        aliases: vec![],
+        guards: vec![],
+        defs,
+        main: t(main),
+        args,
+        generic_fn: None,
+        declared_ret: None,
+    }]
+}
+
+/// By-name field access on a union of labelled tuples that share a field NAME: at the same or at
+/// different positions, with the same or with different field types, accessed without narrowing
+/// (`$.x`, `~.x`, `.x`, `v.x` on a maker's result). A single `Get(index)` is emitted, so the access
+/// is only sound when every variant keeps the field at one index.
+pub fn fam_permuted(r: &mut Rng) -> Vec<Prog> {
+    let mut g = G::new(r);
+    let fx = if g.r.chance(2, 3) { GTy::Int } else { GTy::Bin };
+    let fy = if fx == GTy::Int { GTy::Bin } else { GTy::Int };
+    let fx2 = if g.r.chance(3, 4) { fx.clone() } else { fy.clone() };
+    let nv = 2 + g.r.usize(2);
+    let names = ["A", "B", "C"];
+    let mut variants = vec![];
+    for k in 0..nv {
+        // fields: x plus one or two others, in a random order
+        let xt = if k == 0 { fx.clone() } else { fx2.clone() };
+        let mut fs: Vec<(Option<String>, GTy)> = vec![(Some("x".into()), xt), (Some("y".into()), fy.clone())];
+        if g.r.chance(1, 3) {
+            fs.push((Some(format!("z{k}")), GTy::Int));
+        }
+        match g.r.below(3) {
+            0 => {}
+            1 => fs.reverse(),
+            _ => g.r.shuffle(&mut fs),
+        }
+        let name = if g.r.chance(4, 5) { Some(names[k].to_string()) } else { None };
+        variants.push(GTy::Tup(name, fs));
+    }
+    variants.dedup();
+    if variants.len() < 2 {
+        return vec![];
+    }
+    let ty = GTy::Union(variants.clone());
+    let positions: Vec<usize> = variants
+        .iter()
+        .map(|v| match v {
+            GTy::Tup(_, fs) => fs.iter().position(|(l, _)| l.as_deref() == Some("x")).unwrap_or(0),
+            _ => 0,
+        })
+        .collect();
+    g.feats.insert(if positions.iter().all(|p| *p == positions[0]) { "permuted:same-position".into() } else { "permuted:different-positions".into() });
+    g.feats.insert(if fx2 == fx { "permuted:same-field-type".into() } else { "permuted:different-field-types".into() });
+    let use_of = |g: &mut G, e: &str| -> Node {
+        match g.r.below(3) {
+            0 => t(&format!("W[{e}]")),
+            _ if fx2 == fx && fx == GTy::Int => t(&format!("[{e}, 1] __integer_add__")),
+            _ if fx2 == fx => t(&format!("{e} __binary_length__")),
+            _ => t(&format!("W[{e}]")),
+        }
+    };
+    // one maker branch per variant
+    let mut mk = vec![];
+    let mut lits = vec![];
+    for v in &variants {
+        lits.push(lit(&mut g, v));
+    }
+    for (i, l) in lits.iter().enumerate() {
+        if i + 1 == lits.len() { mk.push(t(&l.src())); } else { mk.push(t(&format!("={i} => {}", l.src()))); }
+    }
+    let mkf = cat(vec![t("#'int "), Node::Block(mk)]);
+    let (defs, main, args): (Vec<(String, Node)>, Node, Vec<Arg>) = match g.r.below(4) {
+        0 => {
+            g.feats.insert("permuted:param-access".into());
+            let u = use_of(&mut g, "$.x");
+            (
+                vec![("mk".into(), mkf), ("f".into(), cat(vec![t(&format!("#{} {{ ", ty.param_src())), u, t(" }")]))],
+                t("{ARG} mk f"),
+                (0..variants.len()).map(|i| Arg { src: i.to_string(), aligned_src: None, note: String::new() }).collect(),
+            )
+        }
+        1 => {
+            g.feats.insert("permuted:variable-access".into());
+            let u = use_of(&mut g, "v.x");
+            (
+                vec![("mk".into(), mkf)],
+                cat(vec![t("v = {ARG} mk, "), u]),
+                (0..variants.len()).map(|i| Arg { src: i.to_string(), aligned_src: None, note: String::new() }).collect(),
+            )
+        }
+        2 => {
+            g.feats.insert("permuted:chain-access".into());
+            let u = use_of(&mut g, "q");
+            (
+                vec![("mk".into(), mkf)],
+                cat(vec![t("{ARG} mk .x =q, "), u]),
+                (0..variants.len()).map(|i| Arg { src: i.to_string(), aligned_src: None, note: String::new() }).collect(),
+            )
+        }
+        _ => {
+            g.feats.insert("permuted:after-partial-narrowing".into());
+            // narrowed by a partial TYPE check first, then accessed
+            let u = use_of(&mut g, "v.x");
+            (
+                vec![("mk".into(), mkf)],
+                cat(vec![t(&format!("v = {{ARG}} mk, v =(x: {}), ", fx.src())), u]),
+                (0..variants.len()).map(|i| Arg { src: i.to_string(), aligned_src: None, note: String::new() }).collect(),
+            )
+        }
+    };
+    vec![Prog {
+        family: "permuted",
+        features: g.feats.clone(),
+        aliases: vec![],
+        guards: vec![],
+        defs,
+        main,
+        args,
+        generic_fn: None,
+        declared_ret: None,
+    }]
+}
+
 pub fn generate(r: &mut Rng) -> Vec<Prog> {
-    match r.below(38) {
+    match r.below(46) {
         0..=7 => fam_dispatch(r),
         8..=11 => fam_variable(r),
         12..=15 => fam_generic(r),
@@ -1157,6 +1377,8 @@ pub fn generate(r: &mut Rng) -> Vec<Prog> {
         26..=27 => fam_repeat(r),
         28..=29 => fam_spawn(r),
         30..=33 => fam_carveout(r),
-        _ => fam_process(r),
+        34..=37 => fam_process(r),
+        38..=41 => fam_sequence(r),
+        _ => fam_permuted(r),
     }
 }
